@@ -1,4 +1,5 @@
 use crate::common::Ctx;
+pub mod c09;
 pub mod c14;
 pub mod c05;
 pub mod c13;
@@ -27,6 +28,7 @@ pub fn dispatch(ctx: &mut Ctx) -> bool {
         "C13" => c13::run(ctx),
         "C05" => c05::run(ctx),
         "C14" => c14::run(ctx),
+        "C09" => c09::run(ctx),
         _ => return false,
     }
     true
